@@ -37,6 +37,16 @@ def gen(ctx):
         sc = [(rng.randint(30, 120) if (t and rng.random() < 0.7) else rng.randint(0, 70)) for t in lab]
         cases.append({"fn": "cal", "scores": sc, "labels": lab, "thr": rng.choice(["0.01", "0.05", "0.1", "0.25", "0.5"]),
                       "half": half, "tags": ["direct", "random", "half" if half else "int"]})
+    # raw scores far from zero / on a tiny or huge scale: offset + s and 2^e * s are exact doubles, differences stay exact, and
+    # the anchored affine map is invariant under such a change of the raw scale, so the expected result is unchanged
+    rng = ctx.sub("cal-affine")
+    for k in range(400 if ctx.thorough else 80):
+        n = rng.randint(2, 60)
+        lab = [1 if rng.random() < 0.6 else 0 for _ in range(n)]
+        sc = [(rng.randint(30, 120) if (t and rng.random() < 0.7) else rng.randint(0, 70)) for t in lab]
+        aff = rng.choice([[0, 2 ** 40], [0, -2 ** 44], [0, 10 ** 6], [0, 10 ** 9], [-40, 0], [-200, 0], [60, 0], [-30, 2 ** 20]])
+        cases.append({"fn": "cal", "scores": sc, "labels": lab, "thr": rng.choice(["0.05", "0.1", "0.25", "0.5"]),
+                      "half": rng.random() < 0.3, "affine": aff, "tags": ["direct", "affine", "scale=2^%d" % aff[0], "offset=%g" % aff[1]]})
     # (2) brew runs: reuse the C02 generator with a bias to calibration-relevant settings
     bc = c02.gen(ctx)
     rng = ctx.sub("cal-brew")
@@ -69,7 +79,10 @@ def run_case(c):
     def impl():
         import numpy as np
         from mokapot.dataset import calibrate_scores
-        arr = np.array([float(v) for v in _vals(c)], dtype=float)
+        e, off = c.get("affine", [0, 0])
+        vals = [(Fraction(off) + v) * Fraction(2) ** e for v in _vals(c)]
+        assert all(Fraction(float(v)) == v for v in vals)
+        arr = np.array([float(v) for v in vals], dtype=float)
         out = calibrate_scores(arr, np.array([bool(v) for v in c["labels"]]), float(c["thr"]))
         if not np.all(np.isfinite(out)):
             raise FloatingPointError("nonfinite")
